@@ -588,32 +588,58 @@ func ruleAllow405(c *Ctx) {
 	// every candidate contributes: inside the collecting loop a candidate's method is left out only because it is
 	// listed already. Any other test there (of the candidate's path, of its position in the ranking) makes the header
 	// depend on more than the set of path-matching candidates - on their order, which the two routers do not share.
-	facts := factsAt(sf)
 	for _, ap := range methodAppends {
+		// the innermost loop around the addition
+		header, loop := innermostLoop(ap.Block())
 		why := ""
-		for f := range facts[ap.Block()] {
-			var at *ssa.BasicBlock
-			for _, b := range sf.Blocks {
-				if iff, ok := b.Instrs[len(b.Instrs)-1].(*ssa.If); ok && iff.Cond == f.Cond {
-					at = b
-				}
-			}
-			if at == nil || !cyc[at] {
+		if header == nil {
+			// the addition is made by a helper called from the loop, or not in a loop at all: the other clauses speak
+			c.triv(name, "every candidate's method is listed unless it is listed already", p.ipos(ap), "the addition is not inside a loop of this function")
+			continue
+		}
+		for _, b := range sf.Blocks {
+			if !loop[b] {
 				continue
 			}
-			bo, isBo := f.Cond.(*ssa.BinOp)
-			if isBo && !isStringType(bo.X.Type()) {
-				if b, isBasic := bo.X.Type().Underlying().(*types.Basic); isBasic && b.Info()&types.IsInteger != 0 {
+			iff, ok := b.Instrs[len(b.Instrs)-1].(*ssa.If)
+			if !ok {
+				continue
+			}
+			cond := iff.Cond
+			for {
+				u, isU := cond.(*ssa.UnOp)
+				if !isU || u.Op != token.NOT {
+					break
+				}
+				cond = u.X
+			}
+			if bo, isBo := cond.(*ssa.BinOp); isBo {
+				if bt, isBasic := bo.X.Type().Underlying().(*types.Basic); isBasic && bt.Info()&types.IsInteger != 0 {
 					continue // loop control
 				}
+				if (bo.Op == token.EQL || bo.Op == token.NEQ) && (methodTaint[strip(bo.X)] || methodTaint[strip(bo.Y)]) {
+					continue // the duplicate test
+				}
 			}
-			if isBo && (bo.Op == token.EQL || bo.Op == token.NEQ) && (methodTaint[strip(bo.X)] || methodTaint[strip(bo.Y)]) {
-				continue // the duplicate test
-			}
-			if _, isNext := f.Cond.(*ssa.Extract); isNext {
+			if _, isNext := cond.(*ssa.Extract); isNext {
 				continue // range over a map or string: loop control
 			}
-			why = "the condition at " + p.ipos(at.Instrs[len(at.Instrs)-1])
+			if _, _, isFlag := phiBoolConsts(cond); isFlag {
+				continue // a flag set by the tests of the loop, which are looked at themselves
+			}
+			if call, isCall := cond.(*ssa.Call); isCall {
+				// listed already? asked of a helper that is given the method
+				takes := false
+				for _, a := range call.Call.Args {
+					if methodTaint[strip(a)] {
+						takes = true
+					}
+				}
+				if takes {
+					continue
+				}
+			}
+			why = "the condition at " + p.ipos(iff)
 		}
 		c.check(why == "", name, "every candidate's method is listed unless it is listed already", p.ipos(ap), "inside the collecting loop the addition is controlled by the loop and the duplicate test only",
 			"a candidate is left out of the Allow list by "+why+", which is neither the loop nor the duplicate test: the header then depends on more than the set of routes matching the URL (their order, their templates) and names fewer methods than are routable")
